@@ -40,6 +40,45 @@ def testfailure_ctor_table(prog, run, rid):
     return n
 
 
+def member_by_type(prog, cls, ct):
+    """the one data member of `cls` whose type is `ct` (read from the program: a rename is followed)"""
+    ms = [fl["name"] for fl in prog.records.get(cls, {}).get("fields", []) if (fl.get("ct") or "").replace("const ", "").strip() == ct]
+    if len(ms) != 1:
+        raise AnalysisBroken_("%s no longer has exactly one member of type %s (%s)" % (cls, ct, ms))
+    return ms[0]
+
+
+def plugin_chain(prog, names, enabled=None, addrs=None, null_addr=9000):
+    """A chain of TestPlugins ended by a NullTestPlugin, built the way programs build it: constructors, addPlugin from the
+    tail to the head, disable() for the disabled ones. Returns (environment, {name: address}); `this_view` makes one object
+    the receiver of a fold."""
+    from .common import Heap, string_hooks
+    addrs = addrs or {nm: 5000 + 1000 * i for i, nm in enumerate(names)}
+    inl = {g.qn for g in prog.functions.values() if g.qn.startswith(("TestPlugin::", "NullTestPlugin::"))}
+    h = Heap(prog, hooks=string_hooks({"NullTestPlugin::instance": lambda *a_: null_addr}), inline=inl - {"NullTestPlugin::instance"})
+    h.construct(null_addr, "NullTestPlugin", [])
+    for nm in names:
+        h.construct(addrs[nm], "TestPlugin", [("str", nm)], types=["const SimpleString &"])
+    prev = null_addr
+    for nm in reversed(list(names)):
+        h.call(addrs[nm], "TestPlugin", "addPlugin", [prev])
+        prev = addrs[nm]
+    for nm in names:
+        if enabled is not None and not enabled.get(nm, 1):
+            h.call(addrs[nm], "TestPlugin", "disable", [])
+    env = {k: v for k, v in h.env().items() if k.startswith("@")}
+    return env, dict(addrs, **{"NullPlugin": null_addr})
+
+
+def this_view(env, addr):
+    """the environment with the object at `addr` as the receiver of a fold: its members also unprefixed, `this` = addr"""
+    out = dict(env)
+    pre = "@%d." % addr
+    out.update({k[len(pre):]: v for k, v in env.items() if k.startswith(pre)})
+    out["this"] = addr
+    return out
+
+
 def plugin_chain_order(prog, run, rid):
     """ORDER over the plugin chain walkers, decided on a fold over chain models (2..4 plugins x every enabled pattern,
     ended by a NullTestPlugin object, virtual calls resolved by the dynamic class the model states): the pre action runs
@@ -58,11 +97,10 @@ def plugin_chain_order(prog, run, rid):
         for n in (1, 2, 3):
             bad = None
             for pattern in itertools.product((1, 0), repeat=n):
-                env = {"this": ADDR[0], f.params[0]["name"]: 111, f.params[1]["name"]: 222}
-                for i in range(n):
-                    env["@%d.next_" % ADDR[i]] = ADDR[i + 1] if i + 1 < n else NULLP
-                    env["@%d.enabled_" % ADDR[i]] = pattern[i]
-                env.update({"@%d.next_" % NULLP: 0, "@%d.enabled_" % NULLP: 1, "next_": env["@%d.next_" % ADDR[0]], "enabled_": pattern[0]})
+                names_ = ["P%d" % i for i in range(n)]
+                cenv, _ = plugin_chain(prog, names_, enabled=dict(zip(names_, pattern)), addrs=dict(zip(names_, ADDR)), null_addr=NULLP)
+                env = this_view(cenv, ADDR[0])
+                env.update({f.params[0]["name"]: 111, f.params[1]["name"]: 222})
                 seen = []
 
                 def action(ev_, *a_):
@@ -287,14 +325,28 @@ def registry_fold(prog, tests, flags=(0, 0)):
         log.append(("shouldRun", idx[o]) + tuple(x for x in a_ if isinstance(x, int)))
         return 1 if tests[idx[o]][1] else 0
     hooks["UtestShell::shouldRun"] = should_run
-    env = {"this": 50, "tests_": addr[0] if addr else 0, "runInSeperateProcess_": flags[0], "runIgnored_": flags[1], "firstPlugin_": 70,
-           "groupFilters_": 81, "nameFilters_": 82, "currentRepetition_": 3, rt.params[0]["name"]: 60}
+    # the registry as its own constructor and public operations leave it: tests registered (addTest prepends: last one
+    # first), filters and run options set, one plugin installed - its private members are not named here
+    from .common import object_state
+    steps = [("addTest", [a_]) for a_ in reversed(addr)] + [("setGroupFilters", [81]), ("setNameFilters", [82]), ("installPlugin", [70])]
+    steps += [("setRunTestsInSeperateProcess", [])] if flags[0] else []
+    steps += [("setRunIgnored", [])] if flags[1] else []
+    build_hooks = string_hooks({"UtestShell::addTest": lambda o, nxt, *a_: o, "TestPlugin::addPlugin": lambda o, *a_: o, "NullTestPlugin::instance": lambda *a_: 9000})
+    env = object_state(prog, "TestRegistry", [], [], steps=steps, hooks=build_hooks)
+    rep0 = None
+    gr = prog.fn("TestRegistry::getCurrentRepetition")
+    e0 = Evaluator(prog, gr, env=dict(env))
+    e0.run_blocks(gr.entry, max_steps=50)
+    rep0 = getattr(e0, "ret", None)
+    env.update({"this": 50, rt.params[0]["name"]: 60})
     ev = Evaluator(prog, rt, env=env, calls=string_hooks(hooks))
     ev.heap_mode = True
     ev.pass_object = True
     ev.inline = {g.qn for g in prog.functions.values() if g.qn.startswith("TestRegistry::") and g.qn != rt.qn}
     ev.run_blocks(rt.entry, max_steps=20000)
-    return log, ev.env
+    e1 = Evaluator(prog, gr, env={k_: v_ for k_, v_ in ev.env.items() if k_ in env})
+    e1.run_blocks(gr.entry, max_steps=50)
+    return log, {"repetitions": (rep0, getattr(e1, "ret", None))}
 
 
 def registry_reference(tests, flags=(0, 0)):
